@@ -69,10 +69,10 @@ def run():
     corp = Corpus(chk)
     r = common.rng("c07")
     if chk.quick:
-        triples = corp.triples(n_enum=560, n_random=160, salt="c07")
+        triples = corp.triples(n_enum=560, n_random=160, salt="c07") + mergefam.sweep(chk, "lines", 100)
         flagged = same_line_cases(r, 96)
     else:
-        triples = corp.triples(n_enum=9000, n_random=4000, random_maxedits=5, salt="c07")
+        triples = corp.triples(n_enum=9000, n_random=4000, random_maxedits=5, salt="c07") + mergefam.sweep(chk, "lines", 1000, positions=("same", "adjacent", "apart"))
         flagged = same_line_cases(r, 900)
     tasks = []
     for k, (name, b, l, rr, info) in enumerate(triples):
